@@ -61,6 +61,25 @@ def build_harness(race=False):
     return rc == 0, log
 
 
+def run_coqchk(pid, timeout):
+    """Independent re-check (coqchk) of the compiled property file and everything it depends on.
+    A timeout is reported in the evidence, not as a violation."""
+    t0 = time.time()
+    try:
+        rc, log = sh(["coqchk", "-silent", "-o", "-Q", ".", "Verif", "Verif.Properties." + pid], cwd=COQ, timeout=timeout)
+    except subprocess.TimeoutExpired:
+        return {"status": "timeout", "wall_s": round(time.time() - t0, 1), "axioms": None, "detail": "coqchk did not finish within %d s" % timeout}
+    res = {"status": "ok" if rc == 0 else "rejected", "wall_s": round(time.time() - t0, 1), "axioms": None, "detail": log[-1500:]}
+    m = re.search(r"\* Axioms:\s*(.*?)\n\s*\n", log, re.S)
+    if m:
+        res["axioms"] = " ".join(m.group(1).split())
+    for key, pat in (("type_in_type", r"relying on type-in-type:\s*(.*?)\n"), ("unsafe_fix", r"unsafe \(co\)fixpoints:\s*(.*?)\n"), ("assumed_positive", r"positivity is assumed:\s*(.*?)\n")):
+        mm = re.search(pat, log)
+        if mm:
+            res[key] = mm.group(1).strip()
+    return res
+
+
 def regen_gen():
     """Regenerate coq/Gen.v from the compiled code; replace only when the text differs."""
     new = os.path.join(COQ, "Gen.v.new")
@@ -197,6 +216,7 @@ def main(argv):
     pfile = P["property_file"]
     proof_log = ""
     assumptions = []
+    coqchk = None
     theorem_names = count_theorems(pfile)
     discharged = 0
 
@@ -234,6 +254,12 @@ def main(argv):
                     extra = [x for x in used if x not in allowed]
                     if extra:
                         problems.append(("axioms", "property theorems depend on axioms outside the allow-list: " + ", ".join(extra)))
+                    if tier == "thorough":
+                        coqchk = run_coqchk(pid, P.get("coqchk_timeout", 1500))
+                        if coqchk["status"] == "rejected":
+                            problems.append(("proof", "coqchk (independent checker) rejects the compiled development of %s: %s" % (pid, coqchk["detail"][-800:])))
+                        elif coqchk["status"] == "ok" and coqchk["axioms"] not in ("<none>",) and not set(re.findall(r"[\w.]+", coqchk["axioms"])) <= allowed:
+                            problems.append(("axioms", "coqchk reports axioms outside the allow-list in the closure of %s: %s" % (pid, coqchk["axioms"])))
 
     # ---- implementation side ----
     result = None
@@ -321,6 +347,7 @@ def main(argv):
         "trusted_base": GLOBAL_TRUSTED_BASE + P.get("trusted_base", []),
         "theorems": theorem_names,
         "print_assumptions": ["Closed under the global context" if not b else "Axioms: " + ", ".join(b) for b in assumptions],
+        "coqchk": coqchk if coqchk is not None else "not run in the quick tier (thorough: coqchk -silent -o on the property's closure)",
         "evaluations": (result or {}).get("evaluations", 0),
         "distinct_nontrivial": (result or {}).get("distinct_nontrivial", 0),
         "rule": (result or {}).get("rule", ""),
